@@ -292,6 +292,56 @@ Proof.
     intros y Hy. apply Hall. eapply (In_firstn_incl n); exact Hy.
 Qed.
 
+Lemma listed_b_iff es t : listed_b es t = true <-> In t (keys es).
+Proof.
+  unfold listed_b, keys. rewrite existsb_exists, in_map_iff. split.
+  - intros (e & He & E). apply beqb_eq in E. exists e. auto.
+  - intros (e & E & He). exists e. split; [exact He|]. apply beqb_eq. exact E.
+Qed.
+
+Lemma NoDup_app_disjoint {A} (l1 l2 : list A) x : NoDup (l1 ++ l2) -> In x l2 -> ~ In x l1.
+Proof.
+  induction l1 as [|y l1 IH]; cbn; intros Hnd Hx; [tauto|].
+  inversion Hnd as [|? ? Hnin Hnd']; subst. intros [->|H].
+  - apply Hnin. apply in_or_app. right. exact Hx.
+  - exact (IH Hnd' Hx H).
+Qed.
+
+(* the counts beyond the first n sorted entries = the counts of the buckets not listed *)
+Lemma skipn_sum_unlisted counts (cnt : bytes -> Z) n dom :
+  wf counts -> (forall k, get k counts = cnt k) ->
+  NoDup dom -> (forall k, In k dom <-> 0 < cnt k) ->
+  zsum (map snd (skipn n (sort_entries counts))) =
+  zsum (map (fun t => if listed_b (firstn n (sort_entries counts)) t then 0 else cnt t) dom).
+Proof.
+  intros Hwf Hget Hnd Hdom.
+  set (srt := sort_entries counts). set (L := firstn n srt). set (K := skipn n srt).
+  set (g := fun t => if listed_b L t then 0 else cnt t).
+  assert (Hperm : Permutation srt counts) by apply sort_perm.
+  assert (Hnds : NoDup (keys srt)).
+  { eapply Permutation_NoDup; [apply Permutation_map; symmetry; exact Hperm|apply Hwf]. }
+  assert (Hdk : Permutation dom (keys srt)).
+  { apply NoDup_Permutation; [exact Hnd|exact Hnds|]. intros k.
+    rewrite Hdom, <- Hget, <- (wf_key_iff _ _ Hwf). unfold keys.
+    split; apply Permutation_in; apply Permutation_map; [symmetry|]; exact Hperm. }
+  rewrite (zsum_perm _ _ (Permutation_map g Hdk)).
+  assert (Esplit : keys srt = keys L ++ keys K).
+  { unfold keys, L, K. rewrite <- map_app, firstn_skipn. reflexivity. }
+  rewrite Esplit, map_app, zsum_app.
+  assert (E1 : zsum (map g (keys L)) = 0).
+  { apply zsum_map_zero. intros t Ht. unfold g. apply listed_b_iff in Ht. rewrite Ht. reflexivity. }
+  rewrite E1. unfold keys at 1. rewrite map_map. cbn [Z.add].
+  apply zsum_map_ext. intros [k c] Hin. cbn [fst snd]. unfold g.
+  assert (Hnl : listed_b L k = false).
+  { destruct (listed_b L k) eqn:E; [|reflexivity]. apply listed_b_iff in E. exfalso.
+    rewrite Esplit in Hnds. apply (NoDup_app_disjoint _ _ k Hnds); [|exact E].
+    apply (in_map fst) in Hin. exact Hin. }
+  rewrite Hnl.
+  assert (Hc : In (k, c) counts).
+  { apply (Permutation_in _ Hperm). unfold K in Hin. rewrite <- (firstn_skipn n srt). apply in_or_app. right. exact Hin. }
+  apply (wf_in_iff _ _ _ Hwf) in Hc as [-> _]. apply Hget.
+Qed.
+
 (* ---------- finish ---------- *)
 
 Lemma finish_some size counts total missing r :
